@@ -59,7 +59,7 @@ func RunSolo(c *core.Case) ([]SoloResult, error) {
 		if t.Kind == "reader" {
 			src := core.NewSource(sink.Data, nil, t.SrcFault)
 			src.MaxCalls = 400000 + 400*len(sink.Data)
-			rr := core.ExecReader(t.W.Shape, src.AsReadSeeker(kindOr(t.SourceKind)), 1<<20, nil)
+			rr := core.ExecReaderMode(t.W.Shape, src.AsReadSeeker(kindOr(t.SourceKind)), 1<<20, nil, t.ReadMode)
 			brief = append(brief, fmt.Sprintf("rows=%d ctor=%v err=%v panic=%v hang=%v", len(rr.Recs), rr.CtorFail, rr.Failed, rr.Panic != "", rr.Hang))
 			for _, rec := range rr.Recs {
 				h = core.Mix(h, core.HashBytes(core.RecJSON(rec)))
